@@ -1,13 +1,13 @@
 import Aiortc.Lemmas.C05.V2Chan
 /-! # V2 (C05c): the data plane (DCEP, DATA, FORWARD-TSN, SACK) under the weaker invariant
 
-The slack `n` of `WF U n e` is consumed by `_receive_data_chunk` (the window shrinks by the payload) and given back by
+The slack `n` of `WF U e` is consumed by `_receive_data_chunk` (the window shrinks by the payload) and given back by
 the delivery of a message (the window grows by its length *before* `_data_channel_receive` may register a channel
 for a DATA_CHANNEL_OPEN of ≥ 12 bytes). -/
 namespace Aiortc.Sctp.V2
 open Aiortc.Gen Aiortc.Sctp.Wire
 set_option linter.unusedSimpArgs false
-variable {U : List Nat} {n : Nat}
+variable {U : List Nat}
 
 theorem ChansOk.delDc {chans dcs q rcq} (h : ChansOk U chans dcs q rcq) (sid : Nat) :
     ChansOk U chans (dictDel dcs sid) q rcq := by
@@ -15,17 +15,12 @@ theorem ChansOk.delDc {chans dcs q rcq} (h : ChansOk U chans dcs q rcq) (sid : N
   · intro p hp; exact h.dcIdx p ((List.mem_filter.mp hp).1)
   · exact h.dcKeys.sublist ((List.filter_sublist).map _)
 
-theorem RoomOk.delDc {chans dcs rwnd} (h : RoomOk n chans dcs rwnd) (sid : Nat) :
-    RoomOk n chans (dictDel dcs sid) rwnd := by
-  have hl : (dictDel dcs sid).length ≤ dcs.length := List.length_filter_le _ _
-  exact ⟨by have := h.cap; omega, by have := h.room; omega⟩
-
-theorem WF.delDc {e : Ep} (h : WF U n e) (sid : Nat) : WF U n { e with dataChannels := dictDel e.dataChannels sid } :=
-  ⟨h.net, h.ch.delDc sid, h.tx, h.rx, h.rcReq, h.rcResp, h.sack, h.room.delDc sid, h.ids, h.cap, h.tm1, h.tm2, h.tasks, h.rcr⟩
+theorem WF.delDc {e : Ep} (h : WF U e) (sid : Nat) : WF U { e with dataChannels := dictDel e.dataChannels sid } :=
+  ⟨h.net, h.ch.delDc sid, h.tx, h.rx, h.rcReq, h.rcResp, h.sack, h.ids, h.cap, h.tm1, h.tm2, h.tasks, h.rcr⟩
 
 /-- `_data_channel_closed(stream_id)`. -/
-theorem wp_dcClosed {A} {sid : Nat} {Q : Unit → St → Prop} {e : Ep} {l : List Out} (h : WF U n e)
-    (hq : ∀ cs l', WF U n { e with dataChannels := dictDel e.dataChannels sid, chans := cs } →
+theorem wp_dcClosed {A} {sid : Nat} {Q : Unit → St → Prop} {e : Ep} {l : List Out} (h : WF U e)
+    (hq : ∀ cs l', WF U { e with dataChannels := dictDel e.dataChannels sid, chans := cs } →
       cs.length = e.chans.length → Q () ({ e with dataChannels := dictDel e.dataChannels sid, chans := cs }, l')) :
     wp A (dcClosed sid) Q (e, l) := by
   unfold dcClosed
@@ -42,10 +37,6 @@ theorem wp_dcClosed {A} {sid : Nat} {Q : Unit → St → Prop} {e : Ep} {l : Lis
     refine wp_setReady (h.delDc sid) hi ?_
     intro cs l' hw hlen
     exact hq cs l' hw hlen
-
-theorem pendingCh_snoc_some {chans : List Chan} {c : Chan} {sid : Nat} (hc : c.id = some sid) :
-    pendingCh (chans ++ [c]) = pendingCh chans := by
-  simp [pendingCh, List.countP_append, hc]
 
 theorem ChansOk.open {chans dcs q rcq} (h : ChansOk U chans dcs q rcq) {sid : Nat} {c : Chan}
     (hnone : dictGet dcs sid = none) (hs : sid < 65536) (hc : c.id = some sid) (data : Bytes) :
@@ -80,22 +71,11 @@ theorem ChansOk.open {chans dcs q rcq} (h : ChansOk U chans dcs q rcq) {sid : Na
     · exact h.sid d hd s hds
     · simp at hd; subst hd; rw [hc] at hds; cases hds; exact hs
 
-/-- Registering a channel for a DATA_CHANNEL_OPEN of `k ≥ 12` bytes that were just given back to the window. -/
-theorem RoomOk.open {k : Nat} {chans : List Chan} {dcs : List (Nat × Nat)} {rwnd : Int}
-    (h : RoomOk (n + k) chans dcs rwnd) (hk : 12 ≤ k) (hrw : rwnd ≤ 1048576) {c : Chan} {sid : Nat}
-    (hc : c.id = some sid) (x : Nat × Nat) : RoomOk n (chans ++ [c]) (dcs ++ [x]) rwnd := by
-  have h1 := h.cap
-  have h2 := h.room
-  have hp := pendingCh_snoc_some (chans := chans) hc
-  refine ⟨?_, ?_⟩
-  · rw [hp]; simp only [List.length_append, List.length_singleton]; omega
-  · rw [hp]; simp only [List.length_append, List.length_singleton]; omega
-
-/-- `_data_channel_receive` of a message whose `data.length` bytes were just added to the window. -/
+/-- `_data_channel_receive`. -/
 theorem wp_dcReceive {A} {sid ppid : Nat} {data : Bytes} {Q : Unit → St → Prop} {e : Ep} {l : List Out}
-    (h : WF U (n + data.length) e) (hrw : e.rwnd ≤ 1048576) (hs : sid < 65536)
-    (hq : ∀ e' l', WF U n e' → DataFrame e e' → Q () (e', l')) : wp A (dcReceive sid ppid data) Q (e, l) := by
-  have h0 : WF U n e := h.mono (by omega)
+    (h : WF U e) (hs : sid < 65536)
+    (hq : ∀ e' l', WF U e' → DataFrame e e' → Q () (e', l')) : wp A (dcReceive sid ppid data) Q (e, l) := by
+  have h0 : WF U e := h
   have hdone : ∀ l', Q () (e, l') := fun l' => hq e l' h0 (DataFrame.refl _)
   unfold dcReceive
   simp only [wp_bind, wp_getE]
@@ -110,11 +90,8 @@ theorem wp_dcReceive {A} {sid ppid : Nat} {data : Bytes} {Q : Unit → St → Pr
         · simp only [wp_bind, wp_setE]
           have hnone' : dictGet e.dataChannels sid = none := by
             cases hd : dictGet e.dataChannels sid <;> simp_all
-          have hlen : 12 ≤ data.length := by
-            simp only [Bool.and_eq_true, decide_eq_true_eq] at hopen
-            exact hopen.2
           refine wp_flush ⟨h.net, h.ch.open hnone' hs rfl _, h.tx, h.rx, h.rcReq, h.rcResp, h.sack,
-            h.room.open hlen hrw rfl _, h.ids, h.cap, h.tm1, h.tm2, h.tasks, h.rcr⟩ ?_
+            h.ids, h.cap, h.tm1, h.tm2, h.tasks, h.rcr⟩ ?_
           intro e1 l1 hw1 hf1
           obtain ⟨cs, dcs, q, tx, _, _, _, _, rfl, hlen⟩ := hf1
           simp only [wp_getE]
@@ -152,48 +129,28 @@ theorem wp_dcReceive {A} {sid ppid : Nat} {data : Bytes} {Q : Unit → St → Pr
 
 /-! ## delivery of reassembled messages -/
 
-/-- the window grows by `k` bytes -/
-theorem WF.addRwnd {e : Ep} (h : WF U n e) (k : Nat) (ins : List (Nat × InStream)) :
-    WF U (n + k) { e with rwnd := e.rwnd + k, inStreams := ins } :=
-  ⟨h.net, h.ch, h.tx, h.rx, h.rcReq, h.rcResp, h.sack,
-   ⟨h.room.cap, by
-      have := h.room.room
-      show 12 * ((pendingCh e.chans + e.dataChannels.length : Nat) : Int) + 655360 + ((n + k : Nat) : Int) ≤ e.rwnd + k
-      omega⟩, h.ids, h.cap, h.tm1, h.tm2, h.tasks, h.rcr⟩
+/-- `WF` does not read the receive window and the inbound streams. -/
+theorem WF.rxFields {e : Ep} (h : WF U e) (rwnd : Int) (ins : List (Nat × InStream)) :
+    WF U { e with rwnd := rwnd, inStreams := ins } :=
+  ⟨h.net, h.ch, h.tx, h.rx, h.rcReq, h.rcResp, h.sack, h.ids, h.cap, h.tm1, h.tm2, h.tasks, h.rcr⟩
 
-/-- the window shrinks by `k` bytes of slack -/
-theorem WF.subRwnd {k : Nat} {e : Ep} (h : WF U (n + k) e) (ins : List (Nat × InStream)) :
-    WF U n { e with rwnd := e.rwnd - k, inStreams := ins } :=
-  ⟨h.net, h.ch, h.tx, h.rx, h.rcReq, h.rcResp, h.sack,
-   ⟨h.room.cap, by
-      have := h.room.room
-      show 12 * ((pendingCh e.chans + e.dataChannels.length : Nat) : Int) + 655360 + (n : Int) ≤ e.rwnd - k
-      omega⟩, h.ids, h.cap, h.tm1, h.tm2, h.tasks, h.rcr⟩
-
-theorem WF.setIns {e : Ep} (h : WF U n e) (ins : List (Nat × InStream)) : WF U n { e with inStreams := ins } :=
-  ⟨h.net, h.ch, h.tx, h.rx, h.rcReq, h.rcResp, h.sack, h.room, h.ids, h.cap, h.tm1, h.tm2, h.tasks, h.rcr⟩
+theorem WF.setIns {e : Ep} (h : WF U e) (ins : List (Nat × InStream)) : WF U { e with inStreams := ins } :=
+  ⟨h.net, h.ch, h.tx, h.rx, h.rcReq, h.rcResp, h.sack, h.ids, h.cap, h.tm1, h.tm2, h.tasks, h.rcr⟩
 
 /-- `for message in …: self._advertised_rwnd += len(message[2]); await self._receive(*message)`. -/
-theorem wp_deliver {A} {msgs : List Msg} {Q : Unit → St → Prop} {e : Ep} {l : List Out} (h : WF U n e)
+theorem wp_deliver {A} {msgs : List Msg} {Q : Unit → St → Prop} {e : Ep} {l : List Out} (h : WF U e)
     (ha : Acc (msgsBytes msgs) e.rwnd e.inStreams) (hs : ∀ m ∈ msgs, m.sid < 65536)
-    (hq : ∀ e' l', WF U n e' → Acc 0 e'.rwnd e'.inStreams → e'.inStreams = e.inStreams → Q () (e', l')) :
+    (hq : ∀ e' l', WF U e' → Acc 0 e'.rwnd e'.inStreams → e'.inStreams = e.inStreams → Q () (e', l')) :
     wp A (deliver msgs) Q (e, l) := by
   unfold deliver
   rw [wp_bind]
-  refine wp_forIn A msgs _ _ (fun suf s' => WF U n s'.1 ∧ Acc (msgsBytes suf) s'.1.rwnd s'.1.inStreams ∧
+  refine wp_forIn A msgs _ _ (fun suf s' => WF U s'.1 ∧ Acc (msgsBytes suf) s'.1.rwnd s'.1.inStreams ∧
     (∀ m ∈ suf, m.sid < 65536) ∧ s'.1.inStreams = e.inStreams) (e, l) ⟨h, ha, hs, rfl⟩ ?_ ?_
   · intro m rest s' ⟨hw, hacc, hsid, hins⟩
     obtain ⟨e1, l1⟩ := s'
     simp only [wp_bind, wp_modE]
     obtain ⟨h1, h2⟩ := hacc
-    have hrw : e1.rwnd + (m.data.length : Int) ≤ 1048576 := by
-      simp only [msgsBytes, List.map_cons, List.sum_cons] at h1
-      try dsimp only at h1
-      omega
-    have hw' : WF U (n + m.data.length) { e1 with rwnd := e1.rwnd + m.data.length } := by
-      have := hw.addRwnd m.data.length e1.inStreams
-      exact this
-    refine wp_dcReceive hw' hrw (hsid m (by simp)) ?_
+    refine wp_dcReceive (hw.rxFields _ _) (hsid m (by simp)) ?_
     intro e2 l2 hw2 hf2
     simp only [wp_pure, true_and]
     obtain ⟨cs, dcs, q, tx, _, _, _, _, rfl, hlen⟩ := hf2
@@ -207,34 +164,34 @@ theorem wp_deliver {A} {msgs : List Msg} {Q : Unit → St → Prop} {e : Ep} {l 
     have : Acc 0 s'.1.rwnd s'.1.inStreams := by simpa [msgsBytes] using hacc
     exact hq s'.1 s'.2 hw this hins
 
-theorem WF.setRx {e : Ep} (h : WF U n e) {r : Rx} (hr : RxR r) (b : Bool) :
-    WF U n { e with rx := some r, sackNeeded := b } :=
-  ⟨h.net, h.ch, h.tx, ⟨by intro r' hr'; cases hr'; exact hr⟩, h.rcReq, h.rcResp, fun _ => rfl, h.room, h.ids, h.cap, h.tm1, h.tm2, h.tasks, h.rcr⟩
+theorem WF.setRx {e : Ep} (h : WF U e) {r : Rx} (hr : RxR r) (b : Bool) :
+    WF U { e with rx := some r, sackNeeded := b } :=
+  ⟨h.net, h.ch, h.tx, ⟨by intro r' hr'; cases hr'; exact hr⟩, h.rcReq, h.rcResp, fun _ => rfl, h.ids, h.cap, h.tm1, h.tm2, h.tasks, h.rcr⟩
 
-theorem WF.rxR {e : Ep} (h : WF U n e) {r : Rx} (hr : e.rx = some r) : RxR r := h.rx.rng r hr
+theorem WF.rxR {e : Ep} (h : WF U e) {r : Rx} (hr : e.rx = some r) : RxR r := h.rx.rng r hr
 
 /-- `_receive_data_chunk` (after the C05a fix no exception is left); consumes `c.data.length` bytes of slack. -/
 theorem wp_receiveData {A} {c : RChunk} {Q : Unit → St → Prop} {e : Ep} {l : List Out}
-    (h : WF U (n + c.data.length) e)
+    (h : WF U e)
     (hrx : e.rx.isSome = true) (ha : Acc 0 e.rwnd e.inStreams) (hso : SidOk e.inStreams)
     (hc : InRange32 c.tsn) (hsid : c.sid < 65536)
-    (hq : ∀ e' l', WF U n e' → Acc 0 e'.rwnd e'.inStreams → SidOk e'.inStreams → Q () (e', l')) :
+    (hq : ∀ e' l', WF U e' → Acc 0 e'.rwnd e'.inStreams → SidOk e'.inStreams → Q () (e', l')) :
     wp A (receiveData c) Q (e, l) := by
   obtain ⟨r, hr⟩ := Option.isSome_iff_exists.mp hrx
   unfold receiveData
   simp only [wp_bind, wp_modE, wp_getE, hr, wp_pure, wp_setE]
-  have hw1 : WF U (n + c.data.length) { e with sackNeeded := true, rx := some (markReceived r c.tsn).2 } :=
+  have hw1 : WF U { e with sackNeeded := true, rx := some (markReceived r c.tsn).2 } :=
     (h.setRx (markReceived_range (h.rxR hr) hc) true)
   have ha1 : Acc 0 e.rwnd e.inStreams := ha
   split
   · simp only [wp_pure]
-    exact hq _ _ (hw1.mono (by omega)) ha hso
+    exact hq _ _ hw1 ha hso
   · simp only [wp_bind]
     refine wp_getInStream (k := 0) (e := { e with sackNeeded := true, rx := some (markReceived r c.tsn).2 }) ha hso ?_
     intro s ins hg hacc hsok
     split
     · simp only [wp_pure]
-      exact hq _ _ ((hw1.setIns _).mono (by omega)) hacc hsok
+      exact hq _ _ (hw1.setIns _) hacc hsok
     rename_i hfresh
     rcases addChunk_outcome s c with ⟨s1, h1, hb1⟩ | hcrash
     · obtain ⟨msgs, s2, h2, hb2⟩ := popMessages_ok s1
@@ -246,7 +203,7 @@ theorem wp_receiveData {A} {c : RChunk} {Q : Unit → St → Prop} {e : Ep} {l :
         · exact hsid
         · exact hsok.get hg x hx
       simp only [h1, h2, wp_liftO_ok, wp_modE, wp_setInStream, wp_bind]
-      refine wp_deliver (hw1.subRwnd _) ?_ ?_ ?_
+      refine wp_deliver (hw1.rxFields _ _) ?_ ?_ ?_
       · refine hacc.set hg ?_
         simp only [Int.add_zero]
         omega
@@ -260,15 +217,15 @@ theorem wp_receiveData {A} {c : RChunk} {Q : Unit → St → Prop} {e : Ep} {l :
     · obtain ⟨s', hs'⟩ := addChunk_ok_of_fresh (by simpa using hfresh)
       rw [hs'] at hcrash; cases hcrash
 
-theorem WF.sackTrue {e : Ep} (h : WF U n e) (hrx : e.rx.isSome = true) : WF U n { e with sackNeeded := true } :=
-  ⟨h.net, h.ch, h.tx, h.rx, h.rcReq, h.rcResp, fun _ => hrx, h.room, h.ids, h.cap, h.tm1, h.tm2, h.tasks, h.rcr⟩
+theorem WF.sackTrue {e : Ep} (h : WF U e) (hrx : e.rx.isSome = true) : WF U { e with sackNeeded := true } :=
+  ⟨h.net, h.ch, h.tx, h.rx, h.rcReq, h.rcResp, fun _ => hrx, h.ids, h.cap, h.tm1, h.tm2, h.tasks, h.rcr⟩
 
 /-- `_receive_forward_tsn_chunk`. -/
 theorem wp_receiveForwardTsn {A} {cum : Int} {streams : List (Nat × Nat)} {Q : Unit → St → Prop} {e : Ep}
-    {l : List Out} (h : WF U n e) (hrx : e.rx.isSome = true) (ha : Acc 0 e.rwnd e.inStreams)
+    {l : List Out} (h : WF U e) (hrx : e.rx.isSome = true) (ha : Acc 0 e.rwnd e.inStreams)
     (hso : SidOk e.inStreams)
     (hc : InRange32 cum) (hsid : ∀ p ∈ streams, p.1 < 65536)
-    (hq : ∀ e' l', WF U n e' → Acc 0 e'.rwnd e'.inStreams → SidOk e'.inStreams → Q () (e', l')) :
+    (hq : ∀ e' l', WF U e' → Acc 0 e'.rwnd e'.inStreams → SidOk e'.inStreams → Q () (e', l')) :
     wp A (receiveForwardTsn cum streams) Q (e, l) := by
   obtain ⟨r, hr⟩ := Option.isSome_iff_exists.mp hrx
   have hrr := h.rxR hr
@@ -289,14 +246,14 @@ theorem wp_receiveForwardTsn {A} {cum : Int} {streams : List (Nat × Nat)} {Q : 
        fun x hx => hrr.2.2 x (List.mem_filter.mp hx).1⟩
     have hw1 := h.setRx hr' true
     -- first loop: prune
-    refine wp_forIn A e.inStreams _ _ (fun suf s' => WF U n s'.1 ∧ Acc 0 s'.1.rwnd s'.1.inStreams ∧
+    refine wp_forIn A e.inStreams _ _ (fun suf s' => WF U s'.1 ∧ Acc 0 s'.1.rwnd s'.1.inStreams ∧
       SidOk s'.1.inStreams ∧ (∀ p ∈ suf, dictGet s'.1.inStreams p.1 = some p.2) ∧ (suf.map (·.1)).Nodup) _
       ⟨hw1, ha, hso, fun p hp => dictGet_of_mem_nodup ha.keys hp, ha.keys⟩ ?_ ?_
     · intro ⟨sid, s⟩ rest ⟨e1, l1⟩ ⟨hw, hacc, hsok, hget, hnd⟩
       have hg : dictGet e1.inStreams sid = some s := hget (sid, s) (by simp)
       simp only [List.map_cons, List.nodup_cons] at hnd
       simp only [wp_bind, wp_setInStream, wp_modE, wp_pure, true_and]
-      refine ⟨((hw.setIns _).addRwnd (s.pruneChunks cum).2 _).mono (by omega), ?_, ?_, ?_, hnd.2⟩
+      refine ⟨hw.rxFields _ _, ?_, ?_, ?_, hnd.2⟩
       · refine hacc.set hg ?_
         have := pruneChunks_bytes s cum
         dsimp only
@@ -310,7 +267,7 @@ theorem wp_receiveForwardTsn {A} {cum : Int} {streams : List (Nat × Nat)} {Q : 
         exact hget p (by simp [hp])
     · intro ⟨e1, l1⟩ ⟨hw, hacc, hsok, _, _⟩
       -- second loop: advance the streams and deliver
-      refine wp_forIn A streams _ _ (fun suf s' => WF U n s'.1 ∧ Acc 0 s'.1.rwnd s'.1.inStreams ∧
+      refine wp_forIn A streams _ _ (fun suf s' => WF U s'.1 ∧ Acc 0 s'.1.rwnd s'.1.inStreams ∧
         SidOk s'.1.inStreams ∧ (∀ p ∈ suf, p.1 < 65536)) _ ⟨hw, hacc, hsok, hsid⟩ ?_ ?_
       · intro ⟨sid, sseq⟩ rest ⟨e2, l2⟩ ⟨hw2, hacc2, hsok2, hsid2⟩
         simp only [wp_bind]
@@ -340,7 +297,7 @@ theorem wp_receiveForwardTsn {A} {cum : Int} {streams : List (Nat × Nat)} {Q : 
 
 /-- `_receive_sack_chunk`. -/
 theorem wp_receiveSack {A} {cum : Nat} {gaps : List (Nat × Nat)} {Q : Unit → St → Prop} {e : Ep} {l : List Out}
-    (h : WF U n e) (hq : ∀ e' l', WF U n e' → DataFrame e e' → Q () (e', l')) :
+    (h : WF U e) (hq : ∀ e' l', WF U e' → DataFrame e e' → Q () (e', l')) :
     wp A (receiveSack cum gaps) Q (e, l) := by
   unfold receiveSack
   simp only [wp_bind, wp_getE]
@@ -354,7 +311,7 @@ theorem wp_receiveSack {A} {cum : Nat} {gaps : List (Nat × Nat)} {Q : Unit → 
       obtain ⟨tx, evs⟩ := p
       obtain ⟨htx, hev⟩ := hok tx evs rfl
       simp only [wp_bind, wp_setE]
-      have hw1 : WF U n { e with tx := tx } := h.setTx htx
+      have hw1 : WF U { e with tx := tx } := h.setTx htx
       refine wp_playTx hw1 hev ?_
       intro l1
       refine wp_flush hw1 ?_
@@ -366,9 +323,9 @@ theorem wp_receiveSack {A} {cum : Nat} {gaps : List (Nat × Nat)} {Q : Unit → 
       exact ⟨cs, dcs, q, tx3, _, _, _, _, rfl, hlen⟩
 
 /-- `_send_sack()`. -/
-theorem wp_sendSack {A} {Q : Unit → St → Prop} {e : Ep} {l : List Out} (h : WF U n e) (hrx : e.rx.isSome = true)
+theorem wp_sendSack {A} {Q : Unit → St → Prop} {e : Ep} {l : List Out} (h : WF U e) (hrx : e.rx.isSome = true)
     (ha : Acc 0 e.rwnd e.inStreams)
-    (hq : ∀ r l', WF U n { e with rx := some r, sackNeeded := false } →
+    (hq : ∀ r l', WF U { e with rx := some r, sackNeeded := false } →
       Q () ({ e with rx := some r, sackNeeded := false }, l')) : wp A sendSack Q (e, l) := by
   obtain ⟨r, hr⟩ := Option.isSome_iff_exists.mp hrx
   have hrr := h.rxR hr
